@@ -185,7 +185,7 @@ func c13CLI(c *mon.Ctx, args []string, stdin string, files map[string]string, ex
 		}
 		if res.Timeout {
 			// a wall-clock deadline is never a verdict: the run becomes inconclusive and is looked at by hand
-			c.Inconclusive("CLI run hit the 60 s watchdog: " + fmt.Sprint(args))
+			c.Inconclusive("CLI run hit the 240 s watchdog: " + fmt.Sprint(args))
 			return
 		}
 		if HasCrashMarkers(res.Stderr) {
